@@ -372,4 +372,73 @@ def CBox.Coherent (c : CBox K) : Prop :=
 
 end object
 
+/-! ### keyword dispatch of `Box.set(**kwargs)` / `Box(**kwargs)` and the signatures of the `set_*` methods
+
+`Box.set` picks the parameter set by the first keyword of an `if / elif` chain that is present and hands
+*all* keywords to that branch: `vects` and `origin` handle theirs inline and `assert` that nothing is left,
+the others call `self.set_…(**kwargs)`, where Python itself raises `TypeError` for a keyword that is not a
+parameter or a missing parameter without default.  `setOutcome` is that decision for a set of keyword
+names; the signatures (parameter order = what a positional call means) are tied to the source by the
+translator (`src_set_dispatch`). -/
+
+/-- parameters of a method after `self`: (name, has a default?) in signature order. -/
+abbrev Sig := List (String × Bool)
+
+def sigVectors : Sig := [("avect", false), ("bvect", false), ("cvect", false), ("origin", true)]
+def sigAbc : Sig :=
+  [("a", false), ("b", false), ("c", false), ("alpha", true), ("beta", true), ("gamma", true), ("origin", true)]
+def sigLengths : Sig :=
+  [("lx", false), ("ly", false), ("lz", false), ("xy", true), ("xz", true), ("yz", true), ("origin", true)]
+def sigHiLos : Sig :=
+  [("xlo", false), ("xhi", false), ("ylo", false), ("yhi", false), ("zlo", false), ("zhi", false),
+   ("xy", true), ("xz", true), ("yz", true)]
+
+/-- the parameter sets of `Box.set`. -/
+inductive SetFamily where
+  | unit | vects | vectors | lengths | hilos | abc | origin
+deriving Repr, BEq, DecidableEq
+
+/-- what `Box.set(**kwargs)` does with a set of keyword names. -/
+inductive SetOutcome where
+  | ok (f : SetFamily)
+  | errAssert
+  | errType
+deriving Repr, BEq, DecidableEq
+
+/-- the signature a family's keywords are checked against (`vects` / `origin` are handled inline). -/
+def SetFamily.sig : SetFamily → Sig
+  | .unit => []
+  | .vects => [("vects", false), ("origin", true)]
+  | .vectors => sigVectors
+  | .lengths => sigLengths
+  | .hilos => sigHiLos
+  | .abc => sigAbc
+  | .origin => [("origin", false)]
+
+def Sig.names (s : Sig) : List String := s.map (·.1)
+def Sig.required (s : Sig) : List String := (s.filter (fun p => !p.2)).map (·.1)
+
+/-- a Python call `f(**kws)`: every keyword is a parameter, every parameter without default is given. -/
+def sigAccepts (sig : Sig) (kws : List String) : Bool :=
+  kws.all (fun k => sig.names.contains k) && sig.required.all (fun r => kws.contains r)
+
+/-- the `if / elif` chain of `Box.set` after the "no keywords" case: (keyword tested, parameter set). -/
+def setChain : List (String × SetFamily) :=
+  [("vects", .vects), ("avect", .vectors), ("lx", .lengths), ("xlo", .hilos), ("a", .abc), ("origin", .origin)]
+
+/-- `Box.set(**kwargs)` for keyword names `kws` (a dict: no duplicates). -/
+def setOutcome (kws : List String) : SetOutcome :=
+  if kws.isEmpty then .ok .unit else
+  match setChain.find? (fun p => kws.contains p.1) with
+  | none => .errType
+  | some (_, f) =>
+    if sigAccepts f.sig kws then .ok f
+    else match f with
+      | .vects => .errAssert      -- `assert len(kwargs) == 0, 'Invalid arguments'`
+      | .origin => .errAssert
+      | _ => .errType             -- raised by Python when `self.set_…(**kwargs)` is called
+
+/-- what a positional call `set_…(x₀, x₁, …)` with `n` arguments binds: the first `n` parameter names. -/
+def Sig.positional (s : Sig) (n : Nat) : List String := (s.take n).map (·.1)
+
 end Atomman.C01
